@@ -19,6 +19,7 @@ import (
 
 	stunx "github.com/pion/ice/v4/internal/stun"
 	"github.com/pion/ice/v4/internal/taskloop"
+	"github.com/pion/ice/v4/internal/verifhook"
 	"github.com/pion/logging"
 	"github.com/pion/mdns/v2"
 	"github.com/pion/stun/v3"
@@ -694,6 +695,7 @@ func (a *Agent) connectivityChecks() { //nolint:cyclop
 		if err := a.loop.Run(a.loop, func(_ context.Context) {
 			defer func() {
 				lastConnectionState = a.connectionState
+				verifhook.Note("tick", a)
 			}()
 
 			switch a.connectionState {
